@@ -70,11 +70,14 @@ func init() {
 		{"C16", "C16/clone-no-skip", "C20/no-skip", ruleC20NoSkip},
 		{"C17", "C17/globals", "C13/globals", ruleC13Globals}, // a package-level pointer cache mutated after publication
 		{"C18", "C18/anchor-gate", "C02/anchor-gate", ruleC02AnchorGate},
+		{"C03", "C03/anchor-gate", "C02/anchor-gate", ruleC02AnchorGate}, // what a $id or an anchor keyword registers decides what "#name" and the references below it reach
+		{"C17", "C17/anchor-gate", "C02/anchor-gate", ruleC02AnchorGate},
 		{"C18", "C18/draft-keywords-gated", "C02/draft-keywords-gated", ruleC02DraftKeywords},
 		{"C02", "C02/empty-preserved", "C05/empty-preserved", ruleC05Empty},
 		{"C04", "C04/type-subsumption", "C01/type-subsumption", ruleC01TypeSubsumption},
 		{"C19", "C19/json-name-conflicts", "C04/json-name-conflicts", func(c *Ctx) { ruleJSONNameConflicts(c, "C04/json-name-conflicts") }}, // the inferred order is the order of the fields that win
 		{"C16", "C16/json-name-conflicts", "C04/json-name-conflicts", func(c *Ctx) { ruleJSONNameConflicts(c, "C04/json-name-conflicts") }},
+		{"C13", "C13/root-provenance", "C02/root-provenance", ruleC02RootProvenance}, // the one write Resolve makes into a caller's schema: only to fill in a missing $schema
 	} {
 		sh := sh
 		p := Properties[sh.prop]
